@@ -264,3 +264,48 @@ def brief(case):
         else:
             out.append("%s:%s obj%s%s" % ("LR"[op["side"]], op["k"], op["obj"], (" -> " + op["name"]) if op.get("name") else ""))
     return {"family": "NEST", "flavour": case["flavour"], "shape": case["shape"], "base_objects": len(case["base_graph"]), "ops": out}
+
+
+def hd2(case):
+    """Input predicate: some file that is created / written / renamed / moved in the case has, over the case, two or more
+    folder renames/moves on its ancestor chain (the same folder twice, or two nested folders).  Measured on the pinned
+    tree: the rare NEST failures (about 1 in 30 000 cases) all lie inside this predicate - the engine's handling of a child
+    change racing with *one* rename of an enclosing folder is solid, with two it depends on the order of intake (K1)."""
+    parent = {int(i): v["parent"] for i, v in case["base_graph"].items()}
+    folder_ops = []         # (position, folder)
+    file_ops = []           # (position, file)
+    moves = []              # (position, obj, new parent)
+    for pos, op in enumerate(case["ops"]):
+        k = op.get("k")
+        if k in ("rename_dir", "move_dir"):
+            folder_ops.append((pos, op["obj"]))
+            if k == "move_dir":
+                moves.append((pos, op["obj"], op["to"]))
+        elif k in ("write", "rename_file", "move_file", "create"):
+            file_ops.append((pos, op["obj"]))
+            if k == "move_file":
+                moves.append((pos, op["obj"], op["to"]))
+            if k == "create":
+                parent[op["obj"]] = op["parent"]
+
+    def ancestors_ever(f):
+        # every folder that is an ancestor of f at some point of the case
+        out = set()
+        par = dict(parent)
+        timeline = [dict(par)]
+        for _, obj, to in moves:
+            par[obj] = to
+            timeline.append(dict(par))
+        for snap in timeline:
+            i = snap.get(f)
+            seen = 0
+            while i is not None and seen < 50:
+                out.add(i)
+                i = snap.get(i)
+                seen += 1
+        return out
+    for _, f in file_ops:
+        anc = ancestors_ever(f)
+        if sum(1 for _, d in folder_ops if d in anc) >= 2:
+            return True
+    return False
